@@ -136,9 +136,13 @@ func checkC18(p *Prog, r *Report) {
 	r.rule("C18.R3", "update_ack is called only with the non-negative sample _itimediff(current, latest) and only for regular (non-FEC) packets", 1)
 	r.rule("C18.R4", "every decision to (re)transmit arms the timer: rto is taken from / advanced by rx_rto and resendts = current + rto in the same arm", 4)
 	r.rule("C18.R5", "a segment is sent only on evidence: first transmission, fastack >= resent (resent = fastresend if > 0 else never), early retransmit (fastack > 0, nothing new), or _itimediff(current, resendts) >= 0; fastack counts only acks of later segments sent no earlier", 5)
+	r.rule("C18.R8", "acknowledgements are not delayed beyond the flush interval: the interval flush returns (which the session uses to re-arm itself) starts as kcp.interval and is only ever lowered — every other assignment is dominated by 'new value < current value' (or is a min with it). A receiver that sleeps longer than its interval acknowledges late and the sender's timer fires on a clean path", 2)
+	r.rule("C18.R9", "the cumulative acknowledgement always has a carrier: the ack loop of flush always encodes the newest entry (= C02.A2) — a withheld una leaves acknowledged data outstanding at the sender until its timer fires", 1)
 	r.rule("C18.R7", "the sender's view of the peer's window comes from the peer only (constructor default, then the advertised wnd of regular packets): a locally invented larger value puts segments beyond the peer's window on the wire, where they are discarded and retransmitted on a clean path (= C03.P5)", 2)
 	r.rule("C18.R6", "GetRTO returns the core's rx_rto", 1)
 	delegate(p, r, "C03", checkC03, "C03.P5", "C18.R7")
+	delegate(p, r, "C02", checkC02, "C02.A2", "C18.R9")
+	checkFlushIntervalOnlyLowered(p, r)
 
 	rtoMin, rtoMax, rtoNdl := p.ConstInt("IKCP_RTO_MIN"), p.ConstInt("IKCP_RTO_MAX"), p.ConstInt("IKCP_RTO_NDL")
 	fRto := p.Field("KCP", "rx_rto")
@@ -476,7 +480,39 @@ func checkArming(p *Prog, r *Report, rule string) {
 			}
 			if b, ok := fieldBase(p.Term(st.Lhs[0]), fSegRto); ok && b.Op == "var" && b.Obj == lv {
 				rt := p.Term(st.Rhs[0])
-				return termHasField(rt, fRxRto) && (st.Tok == token.ASSIGN && rt.Op == "fld" || st.Tok == token.ADD_ASSIGN)
+				// derived from rx_rto: mentions it, or mentions a local every assignment of which mentions it (backoff := rx_rto; if … { backoff = rx_rto/2 })
+				fromRto := termHasField(rt, fRxRto)
+				if !fromRto {
+					rt.Walk(func(t *Term) {
+						if t.Op != "var" {
+							return
+						}
+						v, isV := t.Obj.(*types.Var)
+						if !isV || v.IsField() {
+							return
+						}
+						as := p.Assignments(flush, v)
+						all := len(as) > 0
+						for _, a := range as {
+							if a.Rhs == nil || !termHasField(p.Term(a.Rhs), fRxRto) {
+								all = false
+							}
+						}
+						if all {
+							fromRto = true
+						}
+					})
+				}
+				// forms: rto = rx_rto | rto += f | rto = rto + f
+				selfPlus := false
+				if st.Tok == token.ASSIGN && rt.Op == "+" {
+					for _, a := range rt.Args {
+						if a.Key() == p.Term(st.Lhs[0]).Key() {
+							selfPlus = true
+						}
+					}
+				}
+				return fromRto && (st.Tok == token.ASSIGN && rt.Op == "fld" || st.Tok == token.ADD_ASSIGN || selfPlus)
 			}
 			return false
 		}
@@ -751,4 +787,79 @@ func hasNothingNew(p *Prog, conds []*Term, fi *FuncInfo) bool {
 		}
 	}
 	return false
+}
+
+// checkFlushIntervalOnlyLowered: C18.R8.
+func checkFlushIntervalOnlyLowered(p *Prog, r *Report) {
+	flush := p.FuncOf(p.Method("KCP", "flush"))
+	self := tVar(p.selfVar(flush))
+	interval := p.F(self, "KCP", "interval")
+	// the variable flush returns
+	var rv *types.Var
+	okRet := true
+	inspectBody(flush, func(x ast.Node) bool {
+		rs, ok := x.(*ast.ReturnStmt)
+		if !ok {
+			return true
+		}
+		if len(rs.Results) == 0 {
+			return true // named result
+		}
+		if len(rs.Results) != 1 {
+			okRet = false
+			return true
+		}
+		t := p.Term(rs.Results[0])
+		if t.Op == "var" {
+			v, _ := t.Obj.(*types.Var)
+			if rv != nil && rv != v {
+				okRet = false
+			}
+			rv = v
+		} else if t.Key() != interval.Key() {
+			okRet = false
+		}
+		return true
+	})
+	if rv == nil && flush.Decl.Type.Results != nil {
+		for _, fl := range flush.Decl.Type.Results.List {
+			for _, nm := range fl.Names {
+				rv, _ = p.Info.Defs[nm].(*types.Var)
+			}
+		}
+	}
+	if rv == nil || !okRet {
+		r.bad("C18.R8", flush.Name, p.Pos(flush.Node), "interval returned by flush", "flush does not return one variable on all paths (or kcp.interval): the returned interval cannot be followed", "")
+		return
+	}
+	fa := p.FactsOf(flush)
+	n := 0
+	for _, a := range p.Assignments(flush, rv) {
+		if a.Rhs == nil {
+			n++
+			r.bad("C18.R8", flush.Name, p.Pos(a.Node), "assignment to "+rv.Name(), "the returned interval is modified in place", "")
+			continue
+		}
+		n++
+		t := p.Term(a.Rhs)
+		fs := fa.AtNode(a.Node)
+		cur := tVar(rv)
+		ok := false
+		switch {
+		case t.Key() == interval.Key():
+			ok = true
+		case fs.Holds(lt(t, cur)) || fs.Holds(le(t, cur)):
+			ok = true
+		case t.Op == "min":
+			for _, x := range t.Args {
+				if x.Key() == cur.Key() || x.Key() == interval.Key() {
+					ok = true
+				}
+			}
+		}
+		r.check(ok, "C18.R8", flush.Name, p.Pos(a.Node), rv.Name()+" = "+exprString(a.Rhs), "kcp.interval, or lowered (new < current)", "the interval flush returns can exceed kcp.interval here: a session driven by that value flushes — and therefore acknowledges — later than its configured interval; with the peer's RTO at its minimum the delayed ack arrives after the timer fired and data is retransmitted on a clean path")
+	}
+	if n == 0 {
+		r.bad("C18.R8", flush.Name, p.Pos(flush.Node), "interval returned by flush", "the returned interval is never assigned", "")
+	}
 }
